@@ -26,11 +26,10 @@ PROP_MODULES = ["ArmiVerif.Props.C11"]
 PARTIAL = ("rounding error of the floating-point sums is not modelled (exact rationals; inputs are short dyadics or tiny "
            "offsets, comparison 1e-9..1e-11 relative); XS-type selection of makeAssemWithUniformMesh and "
            "createHomogenizedCopy are outside the property; the re-meshing theorems assume no sliver thinner than 1e-10 of "
-           "a block (NoSliver) - such slivers are judged by the oracle only; resampleStepwise: conservation / mean proved "
-           "for the two-input-cell family only (resample_*_partial), general meshes by correspondence + oracle, and NOT "
-           "conserved for an output cell strictly inside one input cell (proved for every such cell; known finding F25); "
-           "peak parameters only for non-negative values (known finding F8); refusal of _filterMesh on close anchors proved "
-           "for preference bottom only")
+           "a block (NoSliver) - such slivers are judged by the oracle only; resampleStepwise theorems are for strictly "
+           "increasing meshes whose output cells start inside the input range (cells left of the first input point follow "
+           "Python negative-index slicing and are tied by correspondence only); peak parameters only for non-negative "
+           "values (known finding F8)")
 ASSUMPTIONS = [
     "Block.setNumberDensities / getNumberDensity on a homogenized block store and return the mapped densities "
     "(checked on every case to 1e-9 relative)",
@@ -787,15 +786,10 @@ def oracle_resample(ctx, xin, yin, xout, report_interior=True):
         total_ok = fclose(sum(s), sum(yin), 1e-9) or abs(sum(s) - sum(yin)) < 1e-9
         cells_ok = all(relclose(v, e, 1e-9) or abs(v - float(e)) < 1e-12 for v, e in zip(s, exp))
         if not (total_ok and cells_ok):
-            if interior:
-                if report_interior:
-                    ctx.fail("resample-sum-output-cell-inside-one-input-cell",
-                             "resampleStepwise(avg=False) conserves the total / gives each cell its covered share",
-                             case, observed=[sum(s), s], expected=[sum(yin), [float(e) for e in exp]])
-            else:
-                ctx.fail("resample-sum-conserved", "resampleStepwise(avg=False) conserves the total and gives each output "
-                         "cell its covered share of every input cell", case, observed=[sum(s), s],
-                         expected=[sum(yin), [float(e) for e in exp]])
+            key = "resample-sum-output-cell-inside-one-input-cell" if interior else "resample-sum-conserved"
+            ctx.fail(key, "resampleStepwise(avg=False) conserves the total and gives each output cell its covered share of "
+                     "every input cell" + (" (an output cell lies strictly inside one input cell: the F25 class)" if interior else ""),
+                     case, observed=[sum(s), s], expected=[sum(yin), [float(e) for e in exp]])
     a = res[(True, "list")]
     if a is not None:
         exp = exact_resample_avg(xin, yin, xout)
@@ -808,14 +802,13 @@ def oracle_resample(ctx, xin, yin, xout, report_interior=True):
 
 def run_resample(ctx):
     req, impl, cases = [], [], []
-    # the recorded witness of F25 first (excluded point of resample_sum_conserved)
+    # the recorded witness of the repaired F25 first
     wit = ([0, 3.5, 9, 17.5, 18.5], [6, 5.5, 6, -0.5], [0, 3, 5.5, 10.5, 13, 18.5])
     inputs = [wit]
     for _ in range(ctx.pick(800, 10000)):
         inputs.append(gen_resample(ctx.rng))
     nint = 0
     for k, (xin, yin, xout) in enumerate(inputs):
-        # the F25 class is reported for the recorded witness and the first few generated members only
         res, interior = oracle_resample(ctx, xin, yin, xout, report_interior=(k == 0 or nint < 3))
         nint += interior
         for avg in (True, False):
@@ -824,7 +817,7 @@ def run_resample(ctx):
             impl.append(out)
             cases.append({"xin": xin, "yin": yin, "xout": xout, "avg": avg})
         ctx.case(("resample", tuple(xin), tuple(yin), tuple(xout)), nontrivial=list(xout) != list(xin))
-    ctx.count("resample inputs with an output cell inside one input cell (excluded-point stream)", nint)
+    ctx.count("resample inputs with an output cell inside one input cell (the repaired F25 class)", nint)
     ctx.count("resample inputs without such a cell", len(inputs) - nint)
     model = lean_run("Mesh", req)
     for case, line, out in zip(cases, model, impl):
